@@ -570,6 +570,15 @@ class Check(PropertyCheck):
             ("swift-compiler", "other-args (control: hashed)", True, swift, '["-O"]', '["-Onone"]'),
             ("symlink", "link-output-path", False, [("contents", '"target"')], '"$D/l1"', '"$D/l2"'),
             ("symlink", "contents (control: hashed)", True, [], '"t1"', '"t2"'),
+            # null builds run nothing, whatever the command left at its output path
+            ("shell", "(null build: the output is a dangling symlink)", None,
+             [("args", '["/bin/sh", "-c", "ln -sf $D/nowhere $D/out; echo ran >> $D/log"]')], None, None),
+            ("shell", "(null build: the output is a symlink to a file)", None,
+             [("args", '["/bin/sh", "-c", "ln -sf $D/src $D/out; echo ran >> $D/log"]')], None, None),
+            ("shell", "(null build: the output is a directory)", None,
+             [("args", '["/bin/sh", "-c", "mkdir -p $D/out; echo ran >> $D/log"]')], None, None),
+            ("shell", "(null build: the command does not create its output)", None,
+             [("args", '["/bin/sh", "-c", "echo ran >> $D/log"]')], None, None),
         ]
         rows = []
         for i, (tool, attr, hashed, common, v1, v2) in enumerate(cases):
